@@ -4,6 +4,7 @@ import (
 	"context"
 	"crypto/tls"
 	"crypto/x509"
+	"encoding/pem"
 	"time"
 
 	sdk "github.com/cosmos/cosmos-sdk/types"
@@ -66,8 +67,19 @@ func NewServerTLSConfig(ctx context.Context, certs []tls.Certificate, cquery cty
 					return errors.New("tls: attempt to use non-existing or revoked certificate")
 				}
 
+				// the certificate published on chain is the only trust anchor: the presented
+				// certificate must be that certificate (same key), not merely carry its name and serial
+				blk, _ := pem.Decode(resp.Certificates[0].Certificate.Cert)
+				if blk == nil {
+					return errors.New("tls: invalid certificate on chain")
+				}
+				onchain, err := x509.ParseCertificate(blk.Bytes)
+				if err != nil {
+					return errors.Wrap(err, "tls: failed to parse certificate from chain")
+				}
+
 				clientCertPool := x509.NewCertPool()
-				clientCertPool.AddCert(cert)
+				clientCertPool.AddCert(onchain)
 
 				opts := x509.VerifyOptions{
 					Roots:                     clientCertPool,
